@@ -1050,7 +1050,7 @@ func FilterHandler(value string) bool {
 	if Invert.MatchString(value) {
 		return true
 	}
-	if Opacity.MatchString(value) {
+	if Opactiy.MatchString(value) {
 		return true
 	}
 	if Saturate.MatchString(value) {
